@@ -252,29 +252,55 @@ func (x *Exec) closedness(name, init string) {
 		sel = fmt.Sprintf("(select (select %s r) k)", init)
 		vars = fmt.Sprintf("(r Int) (k %s)", ks)
 	}
-	c := x.closedTerm(hi.t, sel, 3)
+	c := x.closedTerm(hi.t, sel, 3, x.alloc0)
 	if c == "true" {
 		return
 	}
 	x.C.decl(fmt.Sprintf("(assert (forall (%s) (! %s :pattern (%s))))", vars, c, sel))
 }
 
-func (x *Exec) closedTerm(t types.Type, term string, depth int) string {
+// closedAt: the same fact for a havocked heap version: every reference stored in it exists now.
+func (x *Exec) closedAt(st *State, name string) {
+	hi, ok := x.C.heapVal[name]
+	if !ok {
+		return
+	}
+	h := st.heaps[name]
+	var sel, vars string
+	if hi.dims == 1 {
+		sel = fmt.Sprintf("(select %s r)", h)
+		vars = "(r Int)"
+	} else {
+		ks := "Int"
+		if hi.key != nil {
+			ks = x.C.sortOf(hi.key)
+		}
+		sel = fmt.Sprintf("(select (select %s r) k)", h)
+		vars = fmt.Sprintf("(r Int) (k %s)", ks)
+	}
+	c := x.closedTerm(hi.t, sel, 3, st.alloc)
+	if c == "true" {
+		return
+	}
+	st.assume(fmt.Sprintf("(forall (%s) (! %s :pattern (%s)))", vars, c, sel))
+}
+
+func (x *Exec) closedTerm(t types.Type, term string, depth int, bound string) string {
 	if isTimeType(t) || isByteSlice(t) {
 		return "true"
 	}
 	switch u := t.Underlying().(type) {
 	case *types.Slice:
-		return fmt.Sprintf("(< (s_base %s) %s)", term, x.alloc0)
+		return fmt.Sprintf("(< (s_base %s) %s)", term, bound)
 	case *types.Pointer, *types.Map, *types.Chan, *types.Signature:
-		return fmt.Sprintf("(< %s %s)", term, x.alloc0)
+		return fmt.Sprintf("(< %s %s)", term, bound)
 	case *types.Struct:
 		if depth <= 0 {
 			return "true"
 		}
 		var cs []string
 		for i := 0; i < u.NumFields(); i++ {
-			cs = append(cs, x.closedTerm(u.Field(i).Type(), fmt.Sprintf("(%s %s)", x.C.selName(t, i), term), depth-1))
+			cs = append(cs, x.closedTerm(u.Field(i).Type(), fmt.Sprintf("(%s %s)", x.C.selName(t, i), term), depth-1, bound))
 		}
 		return and(cs...)
 	}
